@@ -398,4 +398,22 @@ theorem C12_prefix (w : World γ) (hce : CleanEnds w.ctl) (g : γ) (cfg cfg' : S
   simp only [Model.Rewriter.sink, a2, b2]
   exact hrest
 
+
+/-! ### non-vacuity -/
+
+theorem constCtl_cleanEnds (f : Nat) : CleanEnds (constCtl f) where
+  handleEnd := by intro g ev h; simp [constCtl] at h
+  bailOut := by intro g e ev h; simp [constCtl] at h
+
+/-- limit 3: `<a` is retained (2 bytes), appending ` b` needs 4 bytes and fails with `mem` -/
+example : (writeAll (genWorld 31) (Rewriter.new (genWorld 31) () { maxMem := 3 }) [[60, 97]]).2 = [.ok] ∧
+    ((writeAll (genWorld 31) (Rewriter.new (genWorld 31) () { maxMem := 3 }) [[60, 97]]).1.write (genWorld 31) [32, 98]).2
+      = .err .mem := by decide +kernel
+
+/-- the instance of `C12_prefix` for that history -/
+example : ∃ rest, sinkBytes ((writeAll (genWorld 31) (Rewriter.new (genWorld 31) () {}) [[60, 97]]).1.write (genWorld 31) [32, 98]).1.sink =
+    sinkBytes ((writeAll (genWorld 31) (Rewriter.new (genWorld 31) () { maxMem := 3 }) [[60, 97]]).1.write (genWorld 31) [32, 98]).1.sink ++ rest :=
+  (C12_prefix (genWorld 31) (constCtl_cleanEnds 31) () { maxMem := 3 } {} rfl rfl rfl rfl rfl [[60, 97]] [32, 98]
+    (by decide) (by decide +kernel) .mem (by decide +kernel)).2
+
 end LolHtml.Thm.C12P
